@@ -173,6 +173,40 @@ pub fn check_stacks(shape: &Shape, value: &Value, l: &mut Local) -> CaseResult {
             }
         }
     }
+    // the convenience entry points are these very stacks over a given storage: they must agree too
+    let helpers: Vec<(&str, usize, postcard::Result<Vec<u8>>)> = vec![
+        ("to_allocvec_cobs", 1, postcard::to_allocvec_cobs(&t)),
+        ("to_stdvec_cobs", 1, postcard::to_stdvec_cobs(&t)),
+        ("to_vec_cobs<4096>", 1, postcard::to_vec_cobs::<_, 4096>(&t).map(|v| v.to_vec())),
+        ("to_slice_cobs", 1, {
+            let mut b = vec![0u8; reference_stack(plain, 1).len()];
+            postcard::to_slice_cobs(&t, &mut b).map(|s| s.to_vec())
+        }),
+        ("to_allocvec_crc32", 4, postcard::to_allocvec_crc32(&t, CRC32.digest())),
+        ("to_stdvec_crc32", 4, postcard::to_stdvec_crc32(&t, CRC32.digest())),
+        ("to_vec_crc32<4096>", 4, postcard::to_vec_crc32::<_, 4096>(&t, CRC32.digest()).map(|v| v.to_vec())),
+        ("to_slice_crc32", 4, {
+            let mut b = vec![0u8; reference_stack(plain, 4).len()];
+            postcard::to_slice_crc32(&t, &mut b, CRC32.digest()).map(|s| s.to_vec())
+        }),
+        ("to_allocvec (plain)", 0, postcard::to_allocvec(&t)),
+    ];
+    for (name, stack, got) in helpers {
+        let want = reference_stack(plain, stack);
+        if want.len() > 4096 {
+            continue;
+        }
+        l.eval();
+        if got.as_ref() != Ok(&want) {
+            let mut j = case_json(shape, value);
+            j["helper"] = json!(name);
+            return Err(fail(
+                "stack",
+                format!("{} = {:?}; the same stack composed from reference transforms gives {}", name, got.map(|b| hex(&b)), hex(&want)),
+                j,
+            ));
+        }
+    }
     l.sample(|| format!("{} => plain {}", render(shape, value), hex(&plain[..plain.len().min(24)])));
     Ok(())
 }
@@ -302,7 +336,7 @@ pub fn run(ctx: &Ctx) {
          value, user flavours observe exactly the plain encoding (+crc) in order and finalize exactly once, last. non-trivial = \
          stack depth >= 2, or COBS over a payload with a zero byte or >= 254 bytes; distinct = hash(stack, storage, output)",
     );
-    let n = ctx.tier.pick(6_000, 150_000);
+    let n = ctx.tier.pick(60_000, 600_000);
     let scfg = ShapeCfg { encoder_only: true, depth: 3, ..ShapeCfg::default() };
     ctx.par_proptest("stacks-trees", n, || gen::arb_typed(scfg.clone(), ValCfg { max_len: 600, max_seq: 4 }), |(s, v), l| check_stacks(s, v, l));
     ctx.par_proptest(
